@@ -35,6 +35,8 @@ pub fn dispatch(cmd: &str, c: &Value) -> Value {
         "reassemble" => reassemble(c),
         #[cfg(ekg_ragc_verif)]
         "split_at" => split_at(c),
+        #[cfg(ekg_ragc_verif)]
+        "pack_step" => pack_step(c),
         _ => json!({"error": format!("unknown command {}", cmd)}),
     }
 }
@@ -757,4 +759,30 @@ pub fn refseg_roundtrip(c: &Value) -> Value {
     let c2 = compress_segment_configured(&d, 17).unwrap();
     let b2 = decompress_segment_with_marker(&c2, 0).unwrap();
     json!({ "marker": marker, "ok": back == d && (d.is_empty() || b2 == d) && marker <= 1 })
+}
+
+// ---------------------------------------------------------------- C02(d) pack addressing
+#[cfg(ekg_ragc_verif)]
+pub fn pack_step(c: &Value) -> Value {
+    use ragc_core::segment_compression::decompress_segment_with_marker;
+    let raw = c["raw"].as_bool().unwrap();
+    let p = c["P"].as_u64().unwrap() as u32;
+    let gid = if raw { 3 } else { 20 };
+    let first_raw_pack = raw && p == 0;
+    let cap = if first_raw_pack { 49 } else { 50 };
+    let npend = cap - 1;
+    let first_id: u32 = if raw { if p == 0 { 1 } else { 50 } } else { p * 50 + 1 };
+    // compressible, pairwise distinct pending deltas (so that real ZSTD stores the pack compressed)
+    let pending: Vec<Vec<u8>> = (0..npend).map(|j| { let mut v = vec![1u8; 30]; v.push(2 + (j as u8 % 2)); v.push(j as u8 / 2 + 4); v }).collect();
+    let news: Vec<Vec<u8>> = c["segs"].as_array().unwrap().iter().map(|x| bytes(x)).collect();
+    let (parts, regs) = ragc_core::agc_compressor::verif_hooks::flush_pack_step(gid, p, pending, first_id, news).unwrap();
+    let mut ok = parts.len() == 1; let mut why = String::new();
+    if let Some((_sid, data, meta)) = parts.first() {
+        let unpacked = if *meta == 0 { data.clone() } else { let mut d = data.clone(); let m = d.pop().unwrap(); decompress_segment_with_marker(&d, m).unwrap() };
+        if *meta != 0 && *meta as usize != unpacked.len() { ok = false; why = format!("metadata {} != unpacked size {}", meta, unpacked.len()); }
+        let nsep = unpacked.iter().filter(|&&b| b == 0xFF).count();
+        if nsep != 50 { ok = false; why = format!("{} entries in a full pack", nsep); }
+        if first_raw_pack && !(unpacked.len() >= 2 && unpacked[0] == 0x7f && unpacked[1] == 0xFF) { ok = false; why = "placeholder missing".into(); }
+    } else { why = format!("{} parts", parts.len()); }
+    json!({ "ok": ok, "why": why, "registrations": regs })
 }
